@@ -18,24 +18,24 @@ Print Assumptions emacs_roundtrip.
 (* the whole output lexes to exactly the expected tokens: per transaction the file name, line,
    time triple, code or nil, payee or nil; per posting the line, account, amount, state and the
    optional cost and note - each string token being the original, unescaped field *)
-Theorem emacs_tokens_faithful : forall path xs,
-  lisp_lex LsNorm (emacs_out path xs) = Some (emacs_tokens path xs).
+Theorem emacs_tokens_faithful : forall aux path xs,
+  lisp_lex LsNorm (emacs_out aux path xs) = Some (emacs_tokens aux path xs).
 Proof. exact emacs_lex_lemma. Qed.
 Print Assumptions emacs_tokens_faithful.
 
 (* ... and its parentheses (outside strings) balance, never closing more than was opened *)
-Theorem emacs_balanced : forall path xs,
-  exists toks, lisp_lex LsNorm (emacs_out path xs) = Some toks /\ balanced toks = true.
+Theorem emacs_balanced : forall aux path xs,
+  exists toks, lisp_lex LsNorm (emacs_out aux path xs) = Some toks /\ balanced toks = true.
 Proof.
-  intros path xs. exists (emacs_tokens path xs).
+  intros aux path xs. exists (emacs_tokens aux path xs).
   split; [apply emacs_lex_lemma|apply emacs_balanced_lemma].
 Qed.
 Print Assumptions emacs_balanced.
 
 (* read as a tree, the output is one list of transactions
    (file line (hi lo 0) code-or-nil payee-or-nil (line account amount state [cost] [note]) ...) *)
-Theorem emacs_readable_faithful : forall path xs,
-  lisp_read (emacs_out path xs) = Some (emacs_sexp path xs).
+Theorem emacs_readable_faithful : forall aux path xs,
+  lisp_read (emacs_out aux path xs) = Some (emacs_sexp aux path xs).
 Proof. exact emacs_read_lemma. Qed.
 Print Assumptions emacs_readable_faithful.
 
@@ -88,6 +88,40 @@ Theorem xml_commodities_well_formed : forall cs,
 Proof. exact xml_commodities_structure. Qed.
 Print Assumptions xml_commodities_well_formed.
 
+(* ---- dates ---- *)
+(* xml carries each date under its own element: <date> holds _date and <aux-date> holds _date_aux,
+   for the transaction and for a posting that has dates of its own ... *)
+Theorem xml_date_elements : forall x p,
+  ptree_child k_date (put_xact x) = Some (date_leaf (x_primary x)) /\
+  ptree_child k_aux_date (put_xact x) = option_map date_leaf (x_aux x) /\
+  ptree_child k_date (put_post x p) = option_map date_leaf (p_date p) /\
+  ptree_child k_aux_date (put_post x p) = option_map date_leaf (p_aux p).
+Proof.
+  intros x p. split; [apply xact_date_element|]. split; [apply xact_aux_element|].
+  split; [apply post_date_element|apply post_aux_element].
+Qed.
+Print Assumptions xml_date_elements.
+
+(* ... so that a reader who takes the posting's element if present and the transaction's otherwise
+   recovers the register's date without --aux-date, and with it *)
+Theorem xml_dates_faithful : forall x p,
+  xml_date x p = post_date false x p /\ xml_aux_date x p = post_date true x p.
+Proof. intros x p. split; [apply xml_date_is_register|apply xml_aux_date_is_register]. Qed.
+Print Assumptions xml_dates_faithful.
+
+(* the csv date cell is post_t::date() by csv_default_row_fields below.  emacs gives one time value
+   per transaction (xact.date()): it is the register date of a posting without dates of its own *)
+Theorem emacs_date_faithful_partial : forall aux x p,
+  p_date p = None -> p_aux p = None -> post_date aux x p = xact_date aux x.
+Proof. exact emacs_date_without_posting_dates. Qed.
+Print Assumptions emacs_date_faithful_partial.
+
+(* ... and not of a posting that carries its own date (finding F150) *)
+Theorem emacs_date_refuted :
+  exists x p, In p (x_posts x) /\ post_date false x p <> xact_date false x.
+Proof. exact emacs_date_differs. Qed.
+Print Assumptions emacs_date_refuted.
+
 (* ---- payee overrides (Payee tags) ---- *)
 (* The csv payee cell is post_t::payee() by csv_default_row_fields below.  The xml output lets a
    reader recover the posting <payee> child if present, else the transaction <payee>.  Whether that
@@ -135,22 +169,23 @@ Proof.
 Qed.
 Print Assumptions csv_rfc_roundtrip.
 
-Theorem csv_rfc_format_roundtrip : forall fmt xs,
+Theorem csv_rfc_format_roundtrip : forall aux fmt xs,
   fmt <> [] -> (forall qf, In qf fmt -> fst qf = QRfc) ->
-  csv_read_rfc (csv_out fmt xs) = Some (plain_rows (csv_rows fmt xs)).
+  csv_read_rfc (csv_out aux fmt xs) = Some (plain_rows (csv_rows aux fmt xs)).
 Proof. exact csv_out_rfc_format. Qed.
 Print Assumptions csv_rfc_format_roundtrip.
 
 (* ---- the DEFAULT csv format (Gen/CsvFormat.v, regenerated from report.h) ---- *)
-(* its cells are date, code, the posting's payee (post_t::payee(): a Payee tag overrides the
+(* its cells are the posting's date (post_t::date(): its own date or the transaction's, the
+   auxiliary one under --aux-date), code, the posting's payee (post_t::payee(): a Payee tag overrides the
    transaction's), display account, commodity, quantity, state mark and the
    joined note, each wrapped by quoted() *)
-Theorem csv_default_row_fields : forall x p,
-  map snd (csv_cells src_csv_format x p) =
-  [fmt_date (x_year x) (x_month x) (x_day x); opt_str (x_code x); post_payee x p; display_account p;
+Theorem csv_default_row_fields : forall aux x p,
+  map snd (csv_cells aux src_csv_format x p) =
+  [fmt_ymd (post_date aux x p); opt_str (x_code x); post_payee x p; display_account p;
    opt_str (a_sym (p_amount p)); a_qty (p_amount p); state_mark (eff_state x p);
    join_lines (post_note x p)].
-Proof. intros x p. reflexivity. Qed.
+Proof. intros aux x p. reflexivity. Qed.
 Print Assumptions csv_default_row_fields.
 
 Theorem csv_default_all_quoted : forall qf, In qf src_csv_format -> fst qf = QDefault.
@@ -160,10 +195,10 @@ Print Assumptions csv_default_all_quoted.
 (* the backslash-escape reader (escapechar = backslash, no quote doubling) recovers every row of
    the default csv report, WHATEVER the fields hold: quoted() writes a double quote as backslash
    dquote and a backslash as two backslashes *)
-Theorem csv_default_roundtrip : forall xs,
-  csv_read_bs (csv_out src_csv_format xs) = Some (plain_rows (csv_rows src_csv_format xs)).
+Theorem csv_default_roundtrip : forall aux xs,
+  csv_read_bs (csv_out aux src_csv_format xs) = Some (plain_rows (csv_rows aux src_csv_format xs)).
 Proof.
-  intros xs. apply csv_out_default_bs; [discriminate|exact csv_default_all_quoted].
+  intros aux xs. apply csv_out_default_bs; [discriminate|exact csv_default_all_quoted].
 Qed.
 Print Assumptions csv_default_roundtrip.
 
@@ -180,31 +215,31 @@ Print Assumptions csv_quoted_roundtrip.
 
 (* the other conventional reader, RFC 4180 (doubled quotes), recovers the default report when no
    field holds a double quote or a backslash ... *)
-Theorem csv_default_roundtrip_rfc_partial : forall xs,
+Theorem csv_default_roundtrip_rfc_partial : forall aux xs,
   (forall x p f, In x xs -> In p (x_posts x) ->
-                 ~ In 34 (field_value x p f) /\ ~ In 92 (field_value x p f)) ->
-  csv_read_rfc (csv_out src_csv_format xs) = Some (plain_rows (csv_rows src_csv_format xs)).
+                 ~ In 34 (field_value aux x p f) /\ ~ In 92 (field_value aux x p f)) ->
+  csv_read_rfc (csv_out aux src_csv_format xs) = Some (plain_rows (csv_rows aux src_csv_format xs)).
 Proof.
-  intros xs H. apply csv_out_default_rfc; [discriminate|exact csv_default_all_quoted|exact H].
+  intros aux xs H. apply csv_out_default_rfc; [discriminate|exact csv_default_all_quoted|exact H].
 Qed.
 Print Assumptions csv_default_roundtrip_rfc_partial.
 
 (* the hypothesis is satisfiable, and both readers then agree *)
 Definition wit_amt : amt := mkAmt [36; 49] [80] (Some [36]) [49].
-Definition wit_post : post := mkPost 2 0 0 [65; 58; 66] wit_amt None (Some [32; 110]) [] [].
-Definition wit_xact (payee : str) : xact := mkXact 1 2020 1 2 1 (Some [99]) payee None [] [wit_post].
+Definition wit_post : post := mkPost 2 0 0 [65; 58; 66] wit_amt None (Some [32; 110]) None None [] [].
+Definition wit_xact (payee : str) : xact := mkXact 1 2020 1 2 None 1 (Some [99]) payee None [] [wit_post].
 
 Example csv_default_clean_report :
-  csv_read_rfc (csv_out src_csv_format [wit_xact [80; 44; 59; 60]])
+  csv_read_rfc (csv_out false src_csv_format [wit_xact [80; 44; 59; 60]])
   = Some [[[50;48;50;48;47;48;49;47;48;50]; [99]; [80; 44; 59; 60]; [65; 58; 66]; [36]; [49]; [42]; [32; 110]]]
-  /\ csv_read_bs (csv_out src_csv_format [wit_xact [80; 44; 59; 60]])
-     = csv_read_rfc (csv_out src_csv_format [wit_xact [80; 44; 59; 60]]).
+  /\ csv_read_bs (csv_out false src_csv_format [wit_xact [80; 44; 59; 60]])
+     = csv_read_rfc (csv_out false src_csv_format [wit_xact [80; 44; 59; 60]]).
 Proof. split; vm_compute; reflexivity. Qed.
 
 (* the payee a dquote b backslash c, which no reader recovered before quoted() escaped the
    backslash, is recovered by the backslash reader *)
 Example csv_default_hard_payee :
-  csv_read_bs (csv_out src_csv_format [wit_xact [97; 34; 98; 92; 99]])
+  csv_read_bs (csv_out false src_csv_format [wit_xact [97; 34; 98; 92; 99]])
   = Some [[[50;48;50;48;47;48;49;47;48;50]; [99]; [97; 34; 98; 92; 99]; [65; 58; 66]; [36]; [49]; [42]; [32; 110]]].
 Proof. vm_compute. reflexivity. Qed.
 
@@ -213,13 +248,13 @@ Proof. vm_compute. reflexivity. Qed.
    the cell) and by a field with a backslash (it reads both backslashes).  This is a statement
    about that reader, not a defect: the property asks for one conventional reader. *)
 Theorem csv_default_refuted_rfc : exists xs,
-  csv_read_rfc (csv_out src_csv_format xs) <> Some (plain_rows (csv_rows src_csv_format xs)).
+  csv_read_rfc (csv_out false src_csv_format xs) <> Some (plain_rows (csv_rows false src_csv_format xs)).
 Proof. exists [wit_xact [97; 34; 98]]. vm_compute. discriminate. Qed.      (* payee a dquote b *)
 Print Assumptions csv_default_refuted_rfc.
 
 Theorem csv_default_refuted_rfc_backslash : exists xs rows,
-  csv_read_rfc (csv_out src_csv_format xs) = Some rows /\
-  rows <> plain_rows (csv_rows src_csv_format xs).
+  csv_read_rfc (csv_out false src_csv_format xs) = Some rows /\
+  rows <> plain_rows (csv_rows false src_csv_format xs).
 Proof.
   exists [wit_xact [97; 92; 98]]. eexists. split; [vm_compute; reflexivity|].      (* payee a backslash b *)
   vm_compute. discriminate.
